@@ -188,7 +188,7 @@ def run(chk, model_ok=True):
     # the real sync and async clients (engine id given, None or b"", lost discovery probes): every request they emit
     from props import c13
     n_cli = 0
-    for key, script, r, why in c13.client_cases(rng, 12 if quick else 300):
+    for key, script, r, why in c13.client_cases(rng, 24 if quick else 480):
         n_cli += 1
         if why and any(w in why for w in ("MAC", "auth flag", "msgAuthenticationParameters", "security flags", "failed with")):
             fail(f"{key}: {why}", f"# client {key}")
